@@ -16,19 +16,45 @@
    through the production path `parse_content` selected by `fandango.Fandango.parser` — either both raise
    (same exception class) or both give the same grammar, constraints, generators and Python code text.
    Texts: all shipped .fan files (size-capped in the quick tier), generated specs, and perturbed variants.
+   All counts are fixed per tier (no wall-clock budget decides what is compared).
+
+Known finding `C14/silent-newline-at-eof` (/var/tmp/fixes/C14-eof-after-skipped-newline): a disagreement gets
+that signature ONLY IF (i) Python accepts and C++ rejects, (ii) the recorded event stream of the text ends with a
+newline that `on_newline` skipped because the bracket counter is positive (computed from the recorded events, no
+model involved), and (iii) the model explains it: `cppPullsR true` (the base with the fix) delivers the real Python
+token stream on these events and `cppPullsR false` (the base as found) does not.  Everything else is
+`C14/divergence:<python outcome>/<cpp outcome>` and a VIOLATION.
 """
 from __future__ import annotations
 
 import json
 import re
+import signal
 import time
 from typing import Any, Optional
 
 from harness import translate_lex
 from harness.common import REPO, Run, driver_ask, lean_check, use_repo
-from harness.props.c08 import Alarm
 
 PID = "C14"
+
+
+class Alarm:
+    """wall-clock guard around one call of the (slow) pure-Python reader; generous, and a text that hits it is
+    counted and skipped, never reported"""
+
+    def __init__(self, seconds: float):
+        self.s = seconds
+
+    def __enter__(self):
+        def on(signum, frame):
+            raise TimeoutError("alarm")
+        self.old = signal.signal(signal.SIGALRM, on)
+        signal.setitimer(signal.ITIMER_REAL, self.s)
+
+    def __exit__(self, *a):
+        signal.setitimer(signal.ITIMER_REAL, 0)
+        signal.signal(signal.SIGALRM, self.old)
 
 TRUSTED = [
     "Lean 4.33.0 kernel; axioms ⊆ {propext, Classical.choice, Quot.sound} (audited per run)",
@@ -198,6 +224,49 @@ WITNESSES = [
 ]
 
 
+INCLUDE = re.compile(r"""include\(\s*['"]([^'"]+)['"]\s*\)""")
+
+
+def effective_size(path: str, depth: int = 0) -> int:
+    """characters both readers have to read: the file plus what it include()s (resolved like the front end does,
+    relative to the including file)"""
+    import os
+    try:
+        txt = open(path, encoding="utf-8", errors="replace").read()
+    except OSError:
+        return 0
+    n = len(txt)
+    if depth < 5:
+        for m in INCLUDE.finditer(txt):
+            q = os.path.join(os.path.dirname(path), m.group(1))
+            if os.path.isfile(q):
+                n += effective_size(q, depth + 1)
+    return n
+
+
+def corpus_texts() -> list[str]:
+    """corpus/C14/*.json: minimised past disagreements ({"text": …}); run first"""
+    from harness.common import VERIF
+    out = []
+    d = VERIF / "corpus" / PID
+    if d.is_dir():
+        for f in sorted(d.glob("*.json")):
+            try:
+                out.append(json.load(open(f))["text"])
+            except Exception as e:  # noqa
+                raise RuntimeError(f"unreadable corpus file {f}: {e}")
+    return out
+
+
+def ends_with_bracket_skipped_newline(events: list) -> bool:
+    """from the recorded events alone: the last thing the raw lexer saw is a NEWLINE, and at that point
+    `opened` (open_brace() calls minus close_brace() calls) is positive — `on_newline` skips it"""
+    if not events or events[-1][0] != "nl":
+        return False
+    opened = sum(1 for e in events if e[0] == "opn") - sum(1 for e in events if e[0] == "cls")
+    return opened > 0
+
+
 def perturb(rng, text: str) -> tuple[str, str]:
     k = rng.choice(["del_tok", "dup_tok", "indent_tabs", "indent_mixed", "indent_more", "indent_less", "trail_ws",
                     "no_final_nl", "crlf", "cr", "comment", "continuation", "bracket_nl", "fstring", "nonascii",
@@ -302,6 +371,13 @@ def replay(path: str) -> int:
     return 1 if bad else 0
 
 
+# fixed case counts per tier (nothing below is decided by the clock; the safety caps are ~5x the measured time)
+COUNTS = {
+    "quick":    {"generated": 30, "perturbed": 120, "file_cap": 500, "py_alarm": 90, "safety_cap_s": 1200},
+    "thorough": {"generated": 250, "perturbed": 1300, "file_cap": 60_000, "py_alarm": 600, "safety_cap_s": 6000},
+}
+
+
 def main(tier: str) -> int:
     run = Run(PID, tier, "translation_validation")
     use_repo()
@@ -310,7 +386,7 @@ def main(tier: str) -> int:
     lean = lean_check("Props.C14", ["drv_lex"])
     for r in gen["refusals"]:
         lean.broken.append({"module": "Generated.Lex", "reason": "translator refused: " + r})
-    quick = tier == "quick"
+    cfg = COUNTS[tier]
     drv_ok = not any(b.get("reason") == "lake build failed" for b in lean.broken)
     counters: dict[str, int] = {}
     corr: list = []
@@ -320,59 +396,79 @@ def main(tier: str) -> int:
 
     # ---------------------------------------------------------------- texts
     rng = run.rng("texts")
-    texts: list[tuple[str, str]] = [("witness", w) for w in WITNESSES] + [("base", b) for b in BASES]
-    n_gen = 30 if quick else 600
-    for _ in range(n_gen):
+    texts: list[tuple[str, str]] = [("corpus", t) for t in corpus_texts()] + [("witness", w) for w in WITNESSES] \
+        + [("base", b) for b in BASES]
+    for _ in range(cfg["generated"]):
         texts.append(("generated", gen_spec(rng)))
-    n_pert = 120 if quick else 4000
     pool = BASES + [t for k, t in texts if k == "generated"]
-    for _ in range(n_pert):
+    for _ in range(cfg["perturbed"]):
         k, t = perturb(rng, rng.choice(pool))
         if rng.random() < 0.25:
             k2, t = perturb(rng, t)
             k = k + "+" + k2
+        for kk in k.split("+"):
+            run.count("perturbation:" + kk)
         texts.append(("perturbed:" + k, t))
-    files = sorted((str(p) for p in REPO.rglob("*.fan") if ".git" not in p.parts), key=lambda p: (len(open(p, encoding="utf-8", errors="replace").read()), p))
-    cap = 500 if quick else 60_000
-    for p in files:
+    files = sorted((effective_size(str(p)), str(p)) for p in REPO.rglob("*.fan") if ".git" not in p.parts)
+    for size, p in files:
         try:
             txt = open(p, encoding="utf-8").read()
         except Exception:  # noqa
             count("files_unreadable")
             continue
-        if len(txt) <= cap:
+        if size <= cfg["file_cap"]:
             texts.append(("file:" + p, txt))
         else:
-            count("files_over_size_cap")
+            count("files_over_size_cap(incl. what they include)")
+    # distinct texts only, first origin wins
+    seen_t: set[str] = set()
+    uniq = []
+    for kind, text in texts:
+        if text in seen_t:
+            count("duplicate_texts_dropped")
+            continue
+        seen_t.add(text)
+        uniq.append((kind, text))
+    texts = uniq
+    for kind, text in texts:
+        run.count("texts:" + kind.split(":")[0])
+        n = len(text)
+        run.count("text_size:" + ("<100" if n < 100 else "<500" if n < 500 else "<5000" if n < 5000 else ">=5000"))
 
     # ---------------------------------------------------------------- (2) lexer-base correspondence
     reqs, metas = [], []
     for kind, text in texts:
         try:
-            lx = py_lex(text)
+            lx = py_lex(text, limit=max(20000, 2 * len(text) + 100))
         except Exception as e:  # noqa
             count("pylex_failed:" + type(e).__name__)
             continue
         reqs.append({"op": "run", "evs": lx["events"], "n": len(lx["types"]) + 2})
         metas.append((kind, text, lx))
     run.coverage["t_lexing_s"] = round(time.time() - run.t0, 1)
-    answers = driver_ask("drv_lex", reqs, timeout=900) if (drv_ok and reqs) else []
-    loud_of: dict[str, bool] = {}
-    t_b = time.time()
+    answers = driver_ask("drv_lex", reqs, timeout=1800) if (drv_ok and reqs) else []
+    # per text: does the stream end with a newline skipped inside brackets (events only), and does the model
+    # explain a C++ rejection by the known defect (fixed base = real Python stream ≠ base as found)?
+    skipped_end: dict[str, bool] = {}
+    explained: dict[str, bool] = {}
     for (kind, text, lx), a in zip(metas, answers):
         real = [tname(t) for t in lx["types"]]
         model = a["py"][:len(real)]
-        loud_of[text] = a["loud"]
+        skipped_end[text] = ends_with_bracket_skipped_newline(lx["events"])
+        explained[text] = a["cpp_fixed"][:len(real)] == real and a["cpp_as_found"][:len(real)] != real
         count("lexer_streams")
         count("loud" if a["loud"] else "ends_with_silent_newline")
+        if explained[text]:
+            count("streams_on_which_the_cpp_base_as_found_differs")
         nontriv = any(t in ("INDENT", "DEDENT") for t in real)
         run.case(["lex", text], nontriv, {"kind": kind, "text": text[:120], "tokens": real[:40]} if len(run._samples) < 3 else None)
         if model != real:
             corr.append({"kind": "python-machine", "text": text, "model": model[:60], "impl": real[:60]})
+        if a["loud"] and (a["cpp"][:len(real)] != real or a["cpp_fixed"][:len(real)] != real):
+            # C14_bases_equal_partial says this cannot happen; a driver/model regression if it does
+            corr.append({"kind": "model-self-check(loud stream, machines differ)", "text": text,
+                         "model": a["cpp"][:60], "impl": real[:60]})
         # (b) the C++ machine through the parse tree of accepted texts
-        if quick and time.time() - t_b > 40:
-            count("cpp_leaf_checks_cut_short")
-            continue
         try:
             tree = pf.parse_tree(text, "cpp")
         except Exception:  # noqa
@@ -397,27 +493,22 @@ def main(tier: str) -> int:
 
     # ---------------------------------------------------------------- (3) the deciding differential
     t_d = time.time()
-    budget = 100 if quick else 1150
     diffs: dict[str, dict] = {}
     dcount: dict[str, int] = {}
     pairs: dict[str, int] = {}
     n_prog = 0
-    # cheap texts first inside each class: witnesses, bases, perturbed, generated, files by size
-    order = sorted(range(len(texts)), key=lambda i: (0 if texts[i][0] == "witness" else 1 if texts[i][0] == "base" else 2,
+    # corpus and witnesses first, then by size
+    order = sorted(range(len(texts)), key=lambda i: (0 if texts[i][0] in ("corpus", "witness") else 1 if texts[i][0] == "base" else 2,
                                                      len(texts[i][1])))
-    seen = set()
     for i in order:
         kind, text = texts[i]
-        if text in seen:
-            continue
-        seen.add(text)
-        if time.time() - t_d > budget:
-            count("differential_cut_short")
+        if time.time() - t_d > cfg["safety_cap_s"]:
+            count("differential_cut_short(safety cap)")
             break
         fn = kind[5:] if kind.startswith("file:") else "<verif>"
         b = outcome(text, "cpp", fn)
         try:
-            with Alarm(12 if quick else 120):
+            with Alarm(cfg["py_alarm"]):
                 a = outcome(text, "python", fn)
         except TimeoutError:
             count("python_reader_too_slow(skipped)")
@@ -429,25 +520,27 @@ def main(tier: str) -> int:
         pairs[key] = pairs.get(key, 0) + 1
         run.case(["diff", text], "err" not in a or "err" not in b, None)
         if a != b:
-            silent = loud_of.get(text) is False
-            sig = "C14/silent-newline-at-eof" if silent and kind_of(a) == "ok" and kind_of(b).startswith("err") \
-                else f"C14/divergence:{kind_of(a)}/{kind_of(b)}"
+            known_class = (kind_of(a) == "ok" and kind_of(b) == "err:FandangoSyntaxError"
+                           and skipped_end.get(text) is True and explained.get(text) is True)
+            sig = "C14/silent-newline-at-eof" if known_class else f"C14/divergence:{kind_of(a)}/{kind_of(b)}"
             dcount[sig] = dcount.get(sig, 0) + 1
             if sig not in diffs or len(text) < len(diffs[sig]["text"]):
                 diffs[sig] = {"text": text, "kind": kind, "what": first_difference(a, b)}
     for sig, d in diffs.items():
         run.report(sig, f"the two readers disagree on {d['text'][:160]!r} ({d['kind']}): {d['what']} "
                         f"[{dcount[sig]} text(s) with this signature]", {"text": d["text"], "origin": d["kind"]})
+    run.coverage["t_differential_s"] = round(time.time() - t_d, 1)
     run.coverage["programs"] = n_prog
     run.coverage["disagreements_checked"] = sum(dcount.values())
     run.coverage["disagreement_signatures"] = dcount
     run.coverage["outcome_pairs(python / cpp)"] = dict(sorted(pairs.items()))
     run.coverage["c14_counters"] = dict(sorted(counters.items()))
     run.coverage["pins"] = gen["pins"]
+    run.coverage["cpp_base_variant"] = "with the second end-of-input check (fixed)" if gen.get("cppRecheck") else "as found"
     run.coverage["correspondence_disagreements"] = len(corr)
     run.coverage["correspondence_samples"] = corr[:5]
 
-    if (not lean.ok or corr) and not run.violations and not run.known_hits:
+    if (not lean.ok or corr) and not run.violations:
         what = []
         if not lean.ok:
             what.append("proof obligations of Props/C14.lean no longer check: " + json.dumps(lean.broken)[:700])
@@ -460,12 +553,12 @@ def main(tier: str) -> int:
         run.report("C14/unproved", "; ".join(what), rp, no_input=True)
     return run.finish(
         lean,
-        rule="witness texts, hand-written base specs, generated specs (productions + indented helper + constraint), "
+        rule="corpus + witness texts, hand-written base specs, generated specs (productions + indented helper + constraint), "
              "perturbed variants (token deletion/duplication, tabs/mixed/more/less indentation, trailing blanks, no final "
              "newline, CRLF/CR, comments, continuations, brackets across lines, f-strings incl. bracket characters, "
              "non-ASCII, NUL, blank lines, form feed, blanks at EOF, unbalanced brackets) and the shipped .fan files "
-             "(size-capped in the quick tier); non-trivial = the token stream has INDENT/DEDENT (lexer part) or at least "
-             "one reader accepts (differential); distinct by text",
+             "(size-capped in the quick tier); counts fixed per tier; non-trivial = the token stream has INDENT/DEDENT "
+             "(lexer part) or at least one reader accepts (differential); distinct by text",
         explanation="differential of the two production front ends for all of the property; machine-checked proof "
                     "(Props/C14.lean) only for the two hand-written lexer bases, see level_note",
         trusted_base=TRUSTED)
